@@ -37,7 +37,7 @@ def J(name, template, lens, flagsets=(3,), split=16, chunk=30, **extra):
 def jobs(tier):
     if tier == "quick":
         return [J("T4-9", "T4", [9]), J("T4-10", "T4", [10], flagsets=(0, 3)), J("T3-16", "T3", [16], flagsets=(2,)), J("T6-12", "T6", [12], flagsets=(3,)), J("T8-8-8", "T8", [8, 8], flagsets=(3,)),
-                J("JPSSC-71", "JPSS_CONTRIVED", [71]), J("O|T4-10", "O|T4", [10]),      # O|: the ContainerSet written in reverse order
+                J("JPSSC-71", "JPSS_CONTRIVED", [71]), J("O|T4-10", "O|T4", [10]), J("T7-8", "T7", [8]), J("O|T7-8", "O|T7", [8]),      # T7: a container nested before its own definition that is also a base      # O|: the ContainerSet written in reverse order
                 # the root container is not the default one: named when the document is loaded / in the generator call / in a direct parse_ccsds_packet call
                 J("R|T4-10-load", "R|T4", [10], root_mode="load"), J("R|T4-9-gen", "R|T4", [9], root_mode="gen"), J("R|T4-10-direct-load", "R|T4", [10], via="direct", root_mode="load")]
     out = [J(f"T4-{n}", "T4", [n], flagsets=(0, 1, 2, 3)) for n in (8, 9, 10, 11)]
